@@ -745,6 +745,10 @@ func evalFunctionCall(node *CallExpression, env *Environment) Object {
 		return args[0]
 	}
 
+	if errObj := checkFunctionArity(funcObj, args); isError(errObj) {
+		return errObj
+	}
+
 	return fn.(*Function).Value(args...)
 }
 
@@ -766,6 +770,10 @@ func evalUpdateFunctionCall(node *CallExpression, env *Environment) Object {
 	args := evalUpdateExpressions(node.Arguments, env)
 	if len(args) == 1 && isError(args[0]) {
 		return args[0]
+	}
+
+	if errObj := checkFunctionArity(funcObj, args); isError(errObj) {
+		return errObj
 	}
 
 	return fn.(*Function).Value(args...)
